@@ -9,9 +9,30 @@ use serde_json::json;
 const GF: [f32; 14] = [1.0, 1.2, 2.4, 0.3, 1.1, 1.7, 0.7, 1.3, 2.2, 1.05, 0.9, 3.3, 2.5, 1.5];
 const GO: [f32; 8] = [0.0, 0.0, 0.1, 0.3, 1.0, 2.5, 7.7, 12.0];
 
+/// (factor, offset, m, room): the forward computation says that m people fit into the room (ceil(offset + factor * m) <= room) but the
+/// inverse floor((room - offset) / factor) is smaller than m -- the rounding-critical combinations of the two binary32 computations
+fn critical_triples() -> Vec<(f32, f32, usize, usize)> {
+    let fs: [f32; 20] = [1.2, 2.4, 0.3, 1.1, 1.7, 0.7, 1.3, 2.2, 1.05, 0.9, 3.3, 0.6, 0.1, 0.2, 0.4, 0.8, 1.4, 1.6, 1.9, 2.3];
+    let os: [f32; 16] = [0.0, 0.1, 0.2, 0.3, 0.4, 0.6, 0.7, 0.8, 0.9, 1.2, 2.4, 3.6, 4.8, 7.7, 0.15, 5.3];
+    let mut v = Vec::new();
+    for f in fs {
+        for o in os {
+            for m in 1..=45usize {
+                let room = (o + f * m as f32).ceil() as usize;
+                let inv = ((room as f32 - o) / f).floor() as usize;
+                if inv < m {
+                    v.push((f, o, m, room));
+                }
+            }
+        }
+    }
+    v
+}
+
 pub fn run(seed: u64, count: usize, shards: usize, outdir: &str) {
     std::panic::set_hook(Box::new(|_| {}));
     let mut r = Rng::new(seed);
+    let crit = critical_triples();
     let mut text: Vec<Vec<String>> = vec![Vec::new(); shards];
     let mut metas: Vec<Vec<serde_json::Value>> = vec![Vec::new(); shards];
     let mut hist = std::collections::BTreeMap::<String, usize>::new();
@@ -24,6 +45,7 @@ pub fn run(seed: u64, count: usize, shards: usize, outdir: &str) {
         let mut next_p = 0usize;
         let mut a: Vec<Option<usize>> = Vec::new();
         let mut sizes: Vec<usize> = Vec::new();
+        let mut crit_rooms: Vec<Option<usize>> = Vec::new();
         for c in 0..nc {
             let min = r.range(0, 40);
             let max = min + r.range(0, 20);
@@ -38,6 +60,24 @@ pub fn run(seed: u64, count: usize, shards: usize, outdir: &str) {
                 2 => min,
                 _ => r.range(min.saturating_sub(2), (min + 3).min(max)),
             };
+            // every third course sits on a rounding-critical combination: minimum + instructors = m (small m: minimum 0 and m
+            // instructors included), a room of exactly the critical size is added below
+            let critical = if !wide && !crit.is_empty() && r.chance(1, 3) { Some(*r.pick(&crit)) } else { None };
+            let (min, max, ninstr, instr, fbits, obits, att) = match critical {
+                Some((f, o, m, _)) => {
+                    let ni = r.below(m.min(2) + 1);
+                    let mn = m - ni;
+                    let mx = mn + r.range(0, 20);
+                    let at = match r.below(4) {
+                        0 => mx,
+                        1 => mn,
+                        _ => r.range(mn, (mn + 3).min(mx)),
+                    };
+                    (mn, mx, ni, (0..ni).map(|k| next_p + k).collect::<Vec<usize>>(), f.to_bits(), o.to_bits(), at)
+                }
+                None => (min, max, ninstr, instr, fbits, obits, att),
+            };
+            crit_rooms.push(critical.map(|t| t.3));
             let (min, max, ninstr, instr, fbits, obits, att) = if wide { (0, 3, 0, Vec::new(), 1.0f32.to_bits(), 0.0f32.to_bits(), 2) } else { (min, max, ninstr, instr, fbits, obits, att) };
             let cancelled_like = !wide && att == 0 && r.chance(1, 2);
             let people = if cancelled_like { 0 } else { att + ninstr };
@@ -62,7 +102,8 @@ pub fn run(seed: u64, count: usize, shards: usize, outdir: &str) {
         for (ci, c) in courses.iter().enumerate() {
             let m = c.min + c.instr.len();
             let at_min = (f32::from_bits(c.obits) + f32::from_bits(c.fbits) * m as f32).ceil() as usize;
-            let v = match r.below(6) {
+            let v = match if crit_rooms[ci].is_some() && r.chance(2, 3) { 6 } else { r.below(6) } {
+                6 => crit_rooms[ci].unwrap(),
                 0 => at_min,
                 1 => at_min + 1,
                 2 => at_min.saturating_sub(1),
@@ -70,8 +111,11 @@ pub fn run(seed: u64, count: usize, shards: usize, outdir: &str) {
                 4 => sizes[ci].saturating_sub(r.range(1, 3)),
                 _ => r.range(0, 80),
             };
-            if !r.chance(1, 8) {
+            if crit_rooms[ci].is_some() || !r.chance(1, 8) {
                 rooms.push(v);
+            }
+            if crit_rooms[ci].is_some() {
+                *hist.entry(String::from("critical_course")).or_insert(0) += 1;
             }
         }
         if r.chance(1, 4) {
